@@ -15,12 +15,12 @@ CONSTANTS
   FanKinds <- DiscKinds
   Creators <- A4
   MaxC = 2
-  MaxE = 2
+  MaxE = 1
   MaxR = 2
   MaxRC = 2
   MaxV = 0
   MaxVC = 0
-  Reactors = {4}
+  Reactors = {}
   HeadInits <- H0
   Pushers = {}
   Variant = "code"
